@@ -216,8 +216,28 @@ def run_program(rec, hub, seed_rng, steps, letters="abcd", ill_rate=0.3, props=(
                 last = (slice(None),) + tuple(n_ - 1 for n_ in shp[1:])  # the LAST label combination
                 guess = fd.StockArray(dims=ds_c, values=np.full(shp, 7.0))
                 sv = np.cumsum(np.abs(gen.values_one("dyadic", rng, shp)) + 1.0, axis=0)
-                how = int(rng.integers(0, 6))
+                how = int(rng.integers(0, 7))
                 solver = str(rng.choice(["lapack", "manual"]))
+                if how == 6:
+                    # lifetime parameters that are set but degenerate (a spread of exactly zero, a NaN mean, a Weibull scale of zero):
+                    # whether compute() copes or refuses, a refusal must not leave half-written arrays
+                    deg = int(rng.integers(0, 3))
+                    lm_d = (lambda: fd.NormalLifetime(dims=ds_c, time_letter="t", mean=4.0, std=0.0)) if deg == 0 else (lambda: fd.LogNormalLifetime(dims=ds_c, time_letter="t", mean=float("nan"), std=1.0)) if deg == 1 else (lambda: fd.WeibullLifetime(dims=ds_c, time_letter="t", weibull_shape=2.0, weibull_scale=0.0))
+                    if rng.random() < 0.5:
+                        mk_deg = lambda: fd.InflowDrivenDSM(dims=ds_c, inflow=fd.StockArray(dims=ds_c, values=sv), stock=guess, lifetime_model=lm_d(), time_letter="t")
+                    else:
+                        mk_deg = lambda: fd.StockDrivenDSM(dims=ds_c, stock=fd.StockArray(dims=ds_c, values=sv), inflow=guess, lifetime_model=lm_d(), solver=solver, time_letter="t")
+
+                    def degenerate_compute():
+                        s_ = mk_deg()
+                        with np.errstate(all="ignore"):
+                            try:
+                                s_.compute()
+                            except Exception:
+                                pass
+                        return [s_.stock, s_.inflow, s_.outflow]
+
+                    return (f"stock: compute with degenerate lifetime parameters ({deg}, {solver})", None, [degenerate_compute])
                 if how >= 4:
                     # a time dimension of one or two steps (interval lengths cannot be derived from it) or with labels that are no numbers
                     t_short = fd.Dimension(letter="t", name=Ut["t"].name, items=[[2020], [2020, 2030], ["early", "mid", "late"]][int(rng.integers(0, 3))])
